@@ -1,7 +1,7 @@
 (* C12 — keyspaces are isolated, and a deleted keyspace never comes back.
    FULL STATEMENT decided by the differential check (create/write/delete/re-create histories with reopen
    anywhere).  Proved parts are named ..._partial. *)
-From FJ Require Import Bytes Codec Reader Lsm Tracker Db Prog RecoverP.
+From FJ Require Import Bytes Codec Reader Lsm Tracker Db Prog RecoverP DbOrderP RefineP.
 
 (* a single write to one keyspace leaves every other keyspace object (tree included) exactly as it was *)
 Theorem C12_frame_partial : forall d id k v vt mvt ks',
@@ -31,6 +31,24 @@ Theorem C12_new_keyspace_takes_next_id_partial : forall d h name,
   exists ks, In ks (d_kss d') /\ k_id ks = d_next_id d /\ k_name ks = name /\ k_tree ks = tree_init.
 Proof. exact new_keyspace_takes_next_id. Qed.
 
+(* frame, for EVERY operation of the database model other than deletion and reopen (keyspace creation, writes, batches, clear,
+   ingestion, rotation, worker steps, drains, major compaction): the latest read of every key of every keyspace the operation
+   is not addressed to is unchanged.  op_target: the id a write / clear / ingestion names, the ids of a batch's items, the id a
+   new keyspace receives; maintenance operations have no target at all. *)
+Theorem C12_frame : forall (I : N) (d : db) (o : wop) (i : N) (k : bytes),
+  DInv d -> nofilter d -> d_seqno (wstep d o) <= I -> ~ op_target d o i ->
+  absd I (wstep d o) i k = absd I d i k.
+Proof. exact wstep_frame. Qed.
+
+(* a new keyspace starts empty whatever was written under other ids before: reference step of WKs *)
+Theorem C12_new_keyspace_empty : forall (I : N) (d : db) (h : N) (name : bytes) (k : bytes),
+  blookup name (d_map d) = None -> absd I (fst (do_ks d h name)) (d_next_id d) k = None.
+Proof.
+  intros I d h name k B. rewrite (do_ks_refines I d h name). cbn [sstep]. rewrite B. unfold sclear. rewrite N.eqb_refl. reflexivity.
+Qed.
+
+Print Assumptions C12_frame.
+Print Assumptions C12_new_keyspace_empty.
 Print Assumptions C12_frame_partial.
 Print Assumptions C12_deleted_refused_partial.
 Print Assumptions C12_recovered_ids_fresh_partial.
